@@ -96,6 +96,23 @@ def r1(ctx):
     if missing:
         ctx.violation("members/guards", ctx.where(VISIT_DIR, site), "member rows must sit inside the depth gate, the `archives && zip extension` test and `if let Ok` of open / ZipArchive::new / by_index; missing %s" % missing)
     extra = [s for s in strs if s[0] in ("if", "ifnot") and not any(w in s[1] for w in need + ["pass_ignores"])]
+    # atom by atom (boolean locals chased to their definitions): the members of an archive are rows of the archive's own level, so
+    # the gate for *reporting* (mindepth) applies and the gate for *descending* (depth < maxdepth) does not - an archive on the
+    # last level of the window is still opened
+    for t in gs:
+        if t[0] != "if" or t[1]["k"] == "LetE":
+            continue
+        pos_, neg_ = guard_atoms([t])
+
+        def conj(e, depth=4):
+            e = peel(locs.chase(e), methods=False)
+            if e["k"] == "Bin" and e["op"] == "&&" and depth:
+                return conj(e["l"], depth - 1) + conj(e["r"], depth - 1)
+            return [e]
+        for a_ in [c_ for p_ in pos_ for c_ in conj(p_)]:
+            ra = render(a_)
+            if "max_depth" in ra and "min_depth" not in ra:
+                extra.append(("if", ra))
     ctx.obligation(not extra)
     for s in extra:
         ctx.violation("members/extra-guard/%s" % s[1][:50], ctx.where(VISIT_DIR, site), "member rows are additionally conditioned on `%s`" % s[1])
